@@ -163,9 +163,9 @@ def gen_case(rng, stream):
     conf_pool = [0.25, 0.5, 0.75] if rng.random() < 0.35 else [k / 64.0 for k in range(1, 65)]
     gts, used = [], set()
     while len(gts) < ng:
-        p = (float(rng.randint(-14, 14)), float(rng.randint(-7, 7)))
-        if rng.random() < 0.35:
-            p = (float(rng.choice([-10, 10, 8, 6, 3, -3, 12])), float(rng.choice([-5, 5, 0, 4, -4])))
+        p = (float(rng.randint(-11, 11)), float(rng.randint(-5, 5)))
+        if rng.random() < 0.3:
+            p = (float(rng.choice([-10, 10, 8, 6, 3, -3, 12, 14])), float(rng.choice([-5, 5, 0, 4, -4, 7])))
         if p in used:
             continue                        # ground truths with identical __eq__ keys are outside the quantifier
         used.add(p)
@@ -178,7 +178,7 @@ def gen_case(rng, stream):
         if gts and rng.random() < 0.8:
             g = rng.choice(gts)                       # several estimates may contest one ground truth
             r = rng.random()
-            lab = g["label"] if (r < 0.6 and g["label"] != "false_positive") else ("unknown" if r < 0.78 else rng.choice(targets + ["truck"]))
+            lab = g["label"] if (r < 0.68 and g["label"] != "false_positive") else ("unknown" if r < 0.82 else rng.choice(targets + ["truck"]))
             dx, dy = rng.choice(OFFSETS)
             sgn = rng.choice([-1, 1])
             same_box = rng.random() < 0.7
@@ -204,20 +204,20 @@ def gen_case(rng, stream):
     r = rng.random()
     if r < 0.25:
         ct += rng.sample([l for l in LABEL_POOL + ["unknown"] if l not in ct], 1)
-    elif r < 0.31 and len(ct) > 1:
+    elif r < 0.29 and len(ct) > 1:
         ct.pop()                             # a detection target without critical entry: KeyError
     crit = {"targets": ct}
     n_c = len(ct)
     if rng.random() < 0.55:
-        crit["max_x"] = [rng.choice([10.0, 8.0, 6.0, 12.0, 3.0, 100.0]) for _ in range(n_c)]
-        crit["max_y"] = [rng.choice([5.0, 4.0, 6.0, 100.0]) for _ in range(n_c)]
+        crit["max_x"] = [rng.choice([10.0, 8.0, 12.0, 12.0, 3.0, 100.0, 100.0]) for _ in range(n_c)]
+        crit["max_y"] = [rng.choice([5.0, 4.0, 6.0, 100.0, 100.0]) for _ in range(n_c)]
     else:
-        crit["max_dist"] = [rng.choice([10.0, 5.0, 12.5, 100.0]) for _ in range(n_c)]
-        crit["min_dist"] = [rng.choice([0.0, 0.0, 3.0, 5.0]) for _ in range(n_c)]
-    if rng.random() < 0.35:
+        crit["max_dist"] = [rng.choice([10.0, 5.0, 12.5, 100.0, 100.0]) for _ in range(n_c)]
+        crit["min_dist"] = [rng.choice([0.0, 0.0, 0.0, 3.0, 5.0]) for _ in range(n_c)]
+    if rng.random() < 0.3:
         crit["min_pts"] = [rng.choice([0, 1, 3, 5]) for _ in range(n_c)]
-    if rng.random() < 0.35:
-        crit["conf"] = [rng.choice([0.0, 0.25, 0.5, 0.5, 0.75, 1.0]) for _ in range(n_c)]
+    if rng.random() < 0.25:
+        crit["conf"] = [rng.choice([0.0, 0.0, 0.25, 0.5, 0.5, 0.75, 1.0]) for _ in range(n_c)]
     if rng.random() < 0.12:
         crit["uuids"] = rng.sample(UUIDS, rng.choice([0, 2, 3, 4]))
     if rng.random() < 0.15:
@@ -234,13 +234,14 @@ def _fixed(frame, ego, policy="ALLOW_UNKNOWN", fpv=False, **over):
     missed, a score exactly on the pass/fail threshold and on the AP threshold, a confidence tie, objects outside
     the critical range (the scene of Props/Pipeline.v's non-vacuity example)"""
     G = lambda lab, xy, u, pts=3: _obj(lab, frame, ego, xy, 1.0, u, pts)            # noqa: E731
-    E = lambda lab, xy, c: _obj(lab, frame, ego, xy, c, None, None)                 # noqa: E731
+    E = lambda lab, xy, c, qi=0: _obj(lab, frame, ego, xy, c, None, None, qi)       # noqa: E731
     c = {"frame": frame, "ego": ego, "policy": policy, "fpv": fpv, "stream": "regression",
          "gts": [G("car", (1.0, 0.0), "a"), G("car", (4.0, 2.0), "b"), G("pedestrian", (-3.0, 1.0), "c"),
                  G("false_positive", (4.0, -4.0), "d"), G("false_positive", (-6.0, -4.0), "e"), G("car", (0.0, 3.0), "a"),
-                 G("false_positive", (0.0, -3.0), "b"), G("car", (30.0, 0.0), "c"), G("pedestrian", (6.0, 4.0), "d")],
+                 G("false_positive", (0.0, -2.0), "b"), G("car", (30.0, 0.0), "c"), G("pedestrian", (7.0, 4.0), "d")],
          "ests": [E("car", (1.5, 0.0), 0.5), E("car", (5.0, 2.0), 0.5), E("unknown", (-3.0, 1.5), 0.75), E("car", (2.0, -4.0), 0.25),
-                  E("car", (-6.5, -4.0), 0.625), E("car", (8.0, 4.5), 0.5), E("car", (30.5, 0.0), 0.875), E("pedestrian", (6.0, 4.25), 0.375)],
+                  E("car", (-6.5, -4.0), 0.625), E("car", (8.0, 4.0), 0.5), E("car", (30.5, 0.0), 0.875), E("pedestrian", (7.0, 4.25), 0.375, 1),
+                  E("car", (-8.0, 3.0), 0.125)],
          "eval": {"targets": ["car", "pedestrian"], "max_x": 1000.0, "max_y": 1000.0, "radii": [2.5, 2.5], "center": [[1.0, 0.5], [2.0, 2.0]],
                   "plane": [[1.0, 1.0]]},
          "crit": {"targets": ["car", "pedestrian"], "max_x": [10.0, 10.0], "max_y": [5.0, 5.0]},
@@ -256,6 +257,8 @@ def regressions():
             out.append(_fixed(frame, ego, pol))
         out.append(_fixed(frame, ego, fpv=True))
         out.append(_fixed(frame, ego, pf={"targets": ["car", "pedestrian"], "thresholds": None}))
+        out.append(_fixed(frame, ego, pf={"targets": None, "thresholds": [1.0] * 9}))     # = the scene of Props/Pipeline.v
+        out.append(_fixed(frame, ego, pf={"targets": None, "thresholds": [3.0] * 9}))
         out.append(_fixed(frame, ego, crit={"targets": ["car"], "max_x": [10.0], "max_y": [5.0]}))          # KeyError: pedestrian
         out.append(_fixed(frame, ego, crit={"targets": ["pedestrian", "car", "bus"], "max_dist": [10.0, 12.5, 5.0], "min_dist": [0.0, 1.0, 0.0]}))
         # the witness of the former `transform=` typo (F1): an estimate far outside the critical region
